@@ -11,6 +11,10 @@ use std::ops::Neg;
 /// scalar tiers for the vector laws (fields and overflow-free integers)
 pub trait Sn: BaseNum + num_traits::NumCast + Neg<Output = Self> + Send + Sync + 'static {
     const HAS_REM: bool;
+    /// a value whose square does not fit the type (integers only)
+    fn big() -> Option<Self> {
+        None
+    }
     fn g(d: &mut Draw) -> Self;
     fn g_nz(d: &mut Draw) -> Self;
     fn i(n: i64) -> Self;
@@ -41,6 +45,9 @@ impl Sn for Fp {
 }
 impl Sn for i64 {
     const HAS_REM: bool = true;
+    fn big() -> Option<i64> {
+        Some(1 << 33)
+    }
     fn g(d: &mut Draw) -> i64 {
         if d.chance(1, 24) {
             d.int(-1, 1)
@@ -57,6 +64,9 @@ impl Sn for i64 {
 }
 impl Sn for i32 {
     const HAS_REM: bool = true;
+    fn big() -> Option<i32> {
+        Some(1 << 17)
+    }
     fn g(d: &mut Draw) -> i32 {
         if d.chance(1, 24) {
             d.int(-1, 1) as i32
@@ -121,6 +131,22 @@ macro_rules! dim_checks {
                 ensure_eq!(arr(t), cms(&u, a, |x, s| x * s), "mul_assign", "u *= a");
                 let mut t = cu; t /= k;
                 ensure_eq!(arr(t), cms(&u, k, |x, s| x / s), "div_assign", "u /= k");
+                // operands by reference
+                ensure_eq!(arr(&cu + &cv), cmp(&u, &v, |x, y| x + y), "add-ref-ref", "&u + &v");
+                ensure_eq!(arr(cu + &cv), cmp(&u, &v, |x, y| x + y), "add-val-ref", "u + &v");
+                ensure_eq!(arr(&cu + cv), cmp(&u, &v, |x, y| x + y), "add-ref-val", "&u + v");
+                ensure_eq!(arr(&cu - &cv), cmp(&u, &v, |x, y| x - y), "sub-ref-ref", "&u - &v");
+                ensure_eq!(arr(cu - &cv), cmp(&u, &v, |x, y| x - y), "sub-val-ref", "u - &v");
+                ensure_eq!(arr(&cu - cv), cmp(&u, &v, |x, y| x - y), "sub-ref-val", "&u - v");
+                ensure_eq!(arr(&cu * a), cms(&u, a, |x, s| x * s), "mul-scalar-ref", "&u * a");
+                ensure_eq!(arr(&cu / k), cms(&u, k, |x, s| x / s), "div-scalar-ref", "&u / k");
+                // iterator folds
+                let list = [cu, cv, cu];
+                let want3: Vec<S> = (0..$n).map(|i| (S::zero() + u[i]) + v[i] + u[i]).collect();
+                ensure_eq!(arr(list.iter().sum::<$V<S>>()), want3, "sum-refs", "Sum over &vectors");
+                ensure_eq!(arr(list.iter().cloned().sum::<$V<S>>()), want3, "sum-values", "Sum over vectors");
+                ensure_eq!(list[1..2].iter().sum::<$V<S>>(), cv, "sum-single", "Sum of one vector");
+                ensure_eq!(list[..0].iter().sum::<$V<S>>(), $V::<S>::zero(), "sum-empty", "empty Sum is zero()");
                 // ElementWise with a vector right-hand side
                 ensure_eq!(arr(cu.add_element_wise(cv)), cmp(&u, &v, |x, y| x + y), "add_element_wise", "add_element_wise(v)");
                 ensure_eq!(arr(cu.sub_element_wise(cv)), cmp(&u, &v, |x, y| x - y), "sub_element_wise", "sub_element_wise(v)");
@@ -149,6 +175,7 @@ macro_rules! dim_checks {
                 ensure_eq!(arr(t), cms(&u, k, |x, s| x / s), "div_assign_element_wise-scalar", "div_assign_element_wise(k)");
                 if S::HAS_REM {
                     ensure_eq!(arr(cu % k), cms(&u, k, |x, s| x % s), "rem-scalar", "u % k");
+                    ensure_eq!(arr(&cu % k), cms(&u, k, |x, s| x % s), "rem-scalar-ref", "&u % k");
                     let mut t = cu; t %= k;
                     ensure_eq!(arr(t), cms(&u, k, |x, s| x % s), "rem_assign", "u %= k");
                     ensure_eq!(arr(cu.rem_element_wise(cv)), cmp(&u, &v, |x, y| x % y), "rem_element_wise", "rem_element_wise(v)");
@@ -177,6 +204,14 @@ macro_rules! dim_checks {
                 ensure_eq!(z + cu, cu, "zero-identity-left", "zero() + u");
                 ensure!(z.is_zero(), "is_zero-of-zero", "zero().is_zero() is false");
                 ensure_eq!(cu.is_zero(), u.iter().all(|x| *x == S::zero()), "is_zero", "is_zero()");
+                // zero except for one component, at every position (and with a magnitude whose square leaves the type)
+                let k = d.below($n);
+                for val in [Some(S::g_nz(d)), S::big()].iter().flatten() {
+                    let mut e = vec![S::zero(); $n];
+                    e[k] = *val;
+                    ensure!(!mk(&e).is_zero(), "is_zero-single-component", "is_zero() is true for a vector whose component {} is {:?}", k, val);
+                    ensure_eq!(mk(&e) + z, mk(&e), "zero-identity-single", "e + zero()");
+                }
                 ensure_eq!(arr($V::from_value(a)), vec![a; $n], "from_value", "from_value(a)");
                 let mut want = S::zero();
                 for i in 0..$n { want = want + u[i] * v[i]; }
@@ -271,6 +306,12 @@ fn products_f64(d: &mut Draw) -> Outcome {
     let v: Vec<f64> = if d.chance(1, 6) { u.clone() } else { (0..4).map(|_| comp(d)).collect() };
     d.note("u", &u);
     d.note("v", &v);
+    // zeros of either sign with, now and then, one component far below the square root of the smallest float
+    let mut tiny: Vec<f64> = (0..4).map(|_| if d.bool() { 0.0 } else { -0.0 }).collect();
+    if d.chance(3, 4) {
+        tiny[d.below(4)] = d.f64_slog(1e-320, 1e-160);
+    }
+    d.note("tiny", &tiny);
     let e = f64::EPSILON;
     macro_rules! dim {
         ($V:ident, $n:expr, [$($f:ident),+]) => {{
@@ -284,6 +325,11 @@ fn products_f64(d: &mut Draw) -> Outcome {
             ensure!((got - want).abs() <= 8.0 * e * scale + 1e-300 || got == want, "dot-f64", "{}::dot = {:e}, reference {:e}", stringify!($V), got, want);
             ensure!(cu.dot(cv) == cv.dot(cu), "dot-symmetric-f64", "{}::dot is not symmetric in f64", stringify!($V));
             ensure!(cu.magnitude2() == cu.dot(cu), "magnitude2-f64", "{}::magnitude2 != dot(u,u)", stringify!($V));
+            // is_zero: exactly when every component is a zero, however small the others are
+            ensure!(cu.is_zero() == (0..$n).all(|k| u[k] == 0.0), "is_zero-f64", "{}::is_zero() = {} for {:?}", stringify!($V), cu.is_zero(), &u[..$n]);
+            let mut i = 0;
+            let ct = $V { $($f: { i += 1; tiny[i - 1] }),+ };
+            ensure!(ct.is_zero() == (0..$n).all(|k| tiny[k] == 0.0), "is_zero-tiny-f64", "{}::is_zero() = {} for {:?}", stringify!($V), ct.is_zero(), &tiny[..$n]);
             let s: f64 = (0..$n).map(|k| u[k]).sum();
             let sa: f64 = (0..$n).map(|k| u[k].abs()).sum();
             ensure!((cu.sum() - s).abs() <= 8.0 * e * sa + 1e-300, "sum-f64", "{}::sum = {:e}, reference {:e}", stringify!($V), cu.sum(), s);
